@@ -116,6 +116,7 @@ func c16Shapes(tier string) map[string]func() any {
 		"backslash_nl": func() any { return "\\\n" },
 		"blank_str":    func() any { return " \t " },
 		"shell_meta":   func() any { return "$(x ${ `" },
+		"list_opt_o":   func() any { return []any{"errexit", "o"} }, // set: / shopt: entries that are bare option letters
 	}
 	for _, k := range c16Known {
 		k := k
